@@ -71,18 +71,18 @@ theorem SO3Mrp_toMatrix_spec (r : Fin 3 → ℝ) : SO3Mrp.toMatrix.M_mat r = mrp
   mat_entries <;> simp [cas_defs, cas_real, mrpMat, qmat, mrpQ, nsq] <;> field_simp <;> ring
 theorem SO3Dcm_fromMatrix_toMatrix (R : Matrix (Fin 3) (Fin 3) ℝ) :
     SO3Dcm.toMatrix.M_mat (SO3Dcm.fromMatrix.r_vec (fun i j => R i j)) = R := by
-  mat_entries <;> simp [cas_defs, cas_real]
+  mat_entries <;> simp [cas_defs, cas_real] <;> (try ring1)
 
 /-! ## quaternion → DCM, MRP → DCM, MRP → quaternion (no side conditions) -/
 theorem Dcm_from_Quat (q : Fin 4 → ℝ) :
     SO3Dcm.toMatrix.M_mat (SO3Dcm.from_Quat.r_vec q) = SO3Quat.toMatrix.M_mat q := by
-  mat_entries <;> simp [cas_defs, cas_real]
+  mat_entries <;> simp [cas_defs, cas_real] <;> (try ring1)
 theorem Dcm_from_Quat_valid (q : Fin 4 → ℝ) (h : qnormSq q = 1) :
     IsRot (SO3Dcm.toMatrix.M_mat (SO3Dcm.from_Quat.r_vec q)) := by
   rw [Dcm_from_Quat, SO3Quat_toMatrix_spec]; exact isRot_qmat q h
 theorem Dcm_from_Mrp (r : Fin 3 → ℝ) :
     SO3Dcm.toMatrix.M_mat (SO3Dcm.from_Mrp.r_vec r) = SO3Mrp.toMatrix.M_mat r := by
-  mat_entries <;> simp [cas_defs, cas_real]
+  mat_entries <;> simp [cas_defs, cas_real] <;> (try ring1)
 theorem Dcm_from_Mrp_valid (r : Fin 3 → ℝ) :
     IsRot (SO3Dcm.toMatrix.M_mat (SO3Dcm.from_Mrp.r_vec r)) := by
   rw [Dcm_from_Mrp, SO3Mrp_toMatrix_spec]; exact isRot_mrpMat r
@@ -112,7 +112,7 @@ theorem Mrp_from_Quat (q : Fin 4 → ℝ) (hq : qnormSq q = 1) :
       have hc : -q 1 / (1 + -q 0) * (-q 1 / (1 + -q 0)) + -q 2 / (1 + -q 0) * (-q 2 / (1 + -q 0))
           + -q 3 / (1 + -q 0) * (-q 3 / (1 + -q 0)) ≤ 1 := by
         have := hle; simp only [nsq, quatToMrp] at this; simpa [pow_two] using this
-      funext i; fin_cases i <;> simp [cas_defs, cas_real, h0, quatToMrp, hc, not_lt.mpr hc]
+      funext i; fin_cases i <;> simp [cas_defs, cas_real, h0, quatToMrp, hc, not_lt.mpr hc] <;> (try ring1)
     rw [hv, mrpMat_quatToMrp (-q) hq' h0', qmat_neg]
     exact ⟨hle, rfl⟩
   · have h0' : 0 ≤ q 0 := not_lt.mp h0
@@ -121,14 +121,14 @@ theorem Mrp_from_Quat (q : Fin 4 → ℝ) (hq : qnormSq q = 1) :
       have hc : q 1 / (1 + q 0) * (q 1 / (1 + q 0)) + q 2 / (1 + q 0) * (q 2 / (1 + q 0))
           + q 3 / (1 + q 0) * (q 3 / (1 + q 0)) ≤ 1 := by
         have := hle; simp only [nsq, quatToMrp] at this; simpa [pow_two] using this
-      funext i; fin_cases i <;> simp [cas_defs, cas_real, h0, quatToMrp, hc, not_lt.mpr hc]
+      funext i; fin_cases i <;> simp [cas_defs, cas_real, h0, quatToMrp, hc, not_lt.mpr hc] <;> (try ring1)
     rw [hv, mrpMat_quatToMrp q hq h0']
     exact ⟨hle, rfl⟩
 
 /-! ## DCM → quaternion, DCM → MRP: for every orthonormal DCM of determinant one -/
 theorem Quat_from_Dcm_spec (a : Fin 9 → ℝ) :
     SO3Quat.from_Dcm.r_vec a = SO3Quat.fromMatrix.r_vec (fun i j => SO3Dcm.toMatrix.M_mat a i j) := by
-  funext i; fin_cases i <;> simp [cas_defs, cas_real]
+  funext i; fin_cases i <;> simp [cas_defs, cas_real] <;> (try ring1)
 theorem Quat_from_Dcm (a : Fin 9 → ℝ) (h : IsRot (SO3Dcm.toMatrix.M_mat a)) :
     qnormSq (SO3Quat.from_Dcm.r_vec a) = 1
       ∧ SO3Quat.toMatrix.M_mat (SO3Quat.from_Dcm.r_vec a) = SO3Dcm.toMatrix.M_mat a := by
@@ -136,7 +136,7 @@ theorem Quat_from_Dcm (a : Fin 9 → ℝ) (h : IsRot (SO3Dcm.toMatrix.M_mat a)) 
   exact SO3Quat_fromMatrix _ h
 theorem Mrp_from_Dcm_spec (a : Fin 9 → ℝ) :
     SO3Mrp.from_Dcm.r_vec a = SO3Mrp.from_Quat.r_vec (SO3Quat.from_Dcm.r_vec a) := by
-  funext i; fin_cases i <;> simp [cas_defs, cas_real]
+  funext i; fin_cases i <;> simp [cas_defs, cas_real] <;> (try ring1)
 theorem Mrp_from_Dcm (a : Fin 9 → ℝ) (h : IsRot (SO3Dcm.toMatrix.M_mat a)) :
     nsq (SO3Mrp.from_Dcm.r_vec a) ≤ 1
       ∧ SO3Mrp.toMatrix.M_mat (SO3Mrp.from_Dcm.r_vec a) = SO3Dcm.toMatrix.M_mat a := by
@@ -147,7 +147,7 @@ theorem Mrp_from_Dcm (a : Fin 9 → ℝ) (h : IsRot (SO3Dcm.toMatrix.M_mat a)) :
 theorem Mrp_fromMatrix_spec (R : Matrix (Fin 3) (Fin 3) ℝ) :
     SO3Mrp.fromMatrix.r_vec (fun i j => R i j)
       = SO3Mrp.from_Quat.r_vec (SO3Quat.fromMatrix.r_vec (fun i j => R i j)) := by
-  funext i; fin_cases i <;> simp [cas_defs, cas_real]
+  funext i; fin_cases i <;> simp [cas_defs, cas_real] <;> (try ring1)
 /-- matrix → MRP for every proper rotation matrix: non-shadow branch, same rotation -/
 theorem Mrp_fromMatrix (R : Matrix (Fin 3) (Fin 3) ℝ) (h : IsRot R) :
     nsq (SO3Mrp.fromMatrix.r_vec (fun i j => R i j)) ≤ 1
@@ -163,9 +163,9 @@ theorem shadow_spec (r : Fin 3 → ℝ) :
   funext i
   by_cases h : 1 < nsq r
   · have h' : 1 < r 0 * r 0 + r 1 * r 1 + r 2 * r 2 := by simpa [nsq, pow_two] using h
-    fin_cases i <;> simp [cas_defs, cas_real, h, h', nsq, pow_two]
+    fin_cases i <;> simp [cas_defs, cas_real, h, h', nsq, pow_two] <;> (try ring1)
   · have h' : ¬ 1 < r 0 * r 0 + r 1 * r 1 + r 2 * r 2 := by simpa [nsq, pow_two] using h
-    fin_cases i <;> simp [cas_defs, cas_real, h, h']
+    fin_cases i <;> simp [cas_defs, cas_real, h, h'] <;> (try ring1)
 theorem shadow_same_rotation (r : Fin 3 → ℝ) :
     SO3Mrp.toMatrix.M_mat (SO3Mrp.shadow.r_vec r) = SO3Mrp.toMatrix.M_mat r := by
   rw [SO3Mrp_toMatrix_spec, SO3Mrp_toMatrix_spec, shadow_spec]
@@ -207,7 +207,7 @@ theorem Quat_from_Euler (e : Fin 3 → ℝ) :
   exact SO3Quat_fromMatrix _ (Euler_toMatrix_isRot e)
 theorem Dcm_from_Euler_spec (e : Fin 3 → ℝ) :
     SO3Dcm.from_Euler.r_vec e = SO3Dcm.from_Quat.r_vec (SO3Quat.from_Euler.r_vec e) := by
-  funext i; fin_cases i <;> simp [cas_defs, cas_real]
+  funext i; fin_cases i <;> simp [cas_defs, cas_real] <;> (try ring1)
 theorem Dcm_from_Euler (e : Fin 3 → ℝ) :
     SO3Dcm.toMatrix.M_mat (SO3Dcm.from_Euler.r_vec e) = SO3Euler.toMatrix.M_mat e := by
   rw [Dcm_from_Euler_spec, Dcm_from_Quat]; exact (Quat_from_Euler e).2
